@@ -15,6 +15,12 @@ def catalogue(include_watershed=True, include_hmax=False, include_hp01=False):
         C[nm] = (lambda nm: lambda da, aux: getattr(da.spec, nm)())(nm)
     if include_hmax:
         C["hmax"] = lambda da, aux: da.spec.hmax()
+    C["crsd"] = lambda da, aux: da.spec.crsd()
+    C["celerity"] = lambda da, aux: da.spec.celerity()
+    C["celerity_depth"] = lambda da, aux: da.spec.celerity(depth=12.0)
+    C["wavelen"] = lambda da, aux: da.spec.wavelen(depth=30.0)
+    C["interp_like"] = lambda da, aux: da.spec.interp_like(_coarser(da))
+    C["rmse"] = lambda da, aux: da.spec.rmse(da.roll(freq=1, roll_coords=False) * 0.5 + 0.03125)
     C["tp_discrete"] = lambda da, aux: da.spec.tp(smooth=False)
     C["momf2"] = lambda da, aux: da.spec.momf(2)
     C["momd1"] = lambda da, aux: da.spec.momd(1)
@@ -50,6 +56,15 @@ def catalogue(include_watershed=True, include_hmax=False, include_hp01=False):
 
 WATERSHED = {"ptm1", "ptm2", "ptm3", "ptm1_smooth", "hp01", "hp01_nowind"}
 FLOAT32_OUT = {"tp", "fp", "tp_discrete", "dp", "dpm", "dpspr", "alpha", "gamma", "stats", "scale_by_hs"}
+
+
+def _coarser(da):
+    """another spectrum object on every second frequency and a 40-degree direction grid (target of interp_like)"""
+    import xarray as xr
+
+    f = np.sort(np.asarray(da.freq.values, dtype=float))[::2]
+    d = np.arange(0.0, 360.0, 40.0)
+    return xr.DataArray(np.ones((len(f), len(d))), dims=("freq", "dir"), coords={"freq": f, "dir": d}, name="efth")
 
 
 def _mid(f):
